@@ -42,7 +42,7 @@ func runC01(c *Ctx) {
 		fmt.Sprintf("%d NewClientID calls, in newSession itself: %v: a ClientID drawn per dial makes the server bind each new carrier to a fresh, empty KCP session and the stream stalls after the first proxy replacement", nNID, nid != nil))
 	tokG := p.Global("common/turbotunnel", "Token")
 	var dial *ssa.Function
-	for _, clo := range ns.AnonFuncs {
+	for _, clo := range closuresNear(ns, 1) {
 		if len(callsTo(clo, "(client/lib.SnowflakeCollector).Pop")) > 0 {
 			dial = clo
 		}
@@ -67,7 +67,7 @@ func runC01(c *Ctx) {
 			if fv, okf := sl.X.(*ssa.FreeVar); okf {
 				if b := freeVarBinding(fv); b != nil {
 					if al, oka := b.(*ssa.Alloc); oka {
-						if s := singleStoreAny(al); s == ssa.Value(nid) {
+						if s := singleStoreAny(al); s != nil && xforms(s, func(x ssa.Value) bool { return x == ssa.Value(nid) }) {
 							wID = cc
 						}
 					}
@@ -192,44 +192,45 @@ func runC01(c *Ctx) {
 		// collect (dst, src) root pairs of io.Copy calls, including those in closures
 		type pair struct{ d, s string }
 		var pairs []pair
+		root := func(v ssa.Value) string {
+			r := ""
+			flowsLocal(v, func(x ssa.Value) bool {
+				switch y := x.(type) {
+				case *ssa.Parameter:
+					r = "param:" + y.Name() + "@" + p.FnName(y.Parent())
+					return true
+				case *ssa.FreeVar:
+					r = "free:" + y.Name()
+					return true
+				}
+				return false
+			})
+			return r
+		}
+		// every way an io.Copy is reached from this function (inline, in a
+		// closure, or in a copier helper/closure started once per direction),
+		// with its operands mapped back to this function's values
+		reached := map[ssa.Instruction]bool{}
+		for _, f := range withAnon(fn) {
+			for _, d := range deepCalls(f, 2, "io.Copy") {
+				ci := d.In.(ssa.CallInstruction)
+				if len(d.Chain) == 0 {
+					continue
+				}
+				reached[d.In] = true
+				pairs = append(pairs, pair{root(originAlong(ci.Common().Args[0], d.Chain)), root(originAlong(ci.Common().Args[1], d.Chain))})
+			}
+		}
 		for _, f := range withAnon(fn) {
 			for _, ci := range callsTo(f, "io.Copy") {
-				root := func(v ssa.Value) string {
-					r := ""
-					flows(v, func(x ssa.Value) bool {
-						switch y := x.(type) {
-						case *ssa.Parameter:
-							r = "param:" + y.Name() + "@" + p.FnName(y.Parent())
-							return true
-						case *ssa.FreeVar:
-							r = "free:" + y.Name()
-							return true
-						}
-						return false
-					})
-					return r
+				if !reached[ci] {
+					pairs = append(pairs, pair{root(ci.Common().Args[0]), root(ci.Common().Args[1])})
 				}
-				pairs = append(pairs, pair{root(ci.Common().Args[0]), root(ci.Common().Args[1])})
 			}
 		}
 		good := false
-		// either two calls with swapped roots, or one copier closure started twice with swapped arguments
-		if len(pairs) == 2 && pairs[0].d == pairs[1].s && pairs[0].s == pairs[1].d && pairs[0].d != pairs[0].s {
+		if len(pairs) == 2 && pairs[0].d == pairs[1].s && pairs[0].s == pairs[1].d && pairs[0].d != pairs[0].s && pairs[0].d != "" && pairs[0].s != "" {
 			good = true
-		}
-		if len(pairs) == 1 {
-			// copier(dst, src) invoked twice with swapped args
-			var calls [][]ssa.Value
-			for _, f := range withAnon(fn) {
-				for _, ci := range callsIn(f) {
-					if _, isGo := ci.(*ssa.Go); isGo && len(ci.Common().Args) == 2 {
-						calls = append(calls, ci.Common().Args)
-					}
-				}
-			}
-			if len(calls) == 2 && calls[0][0] == calls[1][1] && calls[0][1] == calls[1][0] && calls[0][0] != calls[0][1] {
-				good = true
-			}
 		}
 		c.check(good, rule6, w[0]+"."+w[1]+" copies in both directions", p.Pos(fn.Pos()), "", fmt.Sprintf("the two io.Copy calls do not have swapped (dst, src): one direction of the stream is never relayed (%v)", pairs))
 	}
@@ -352,8 +353,12 @@ func (c *Ctx) checkTunnelConstants(ns *ssa.Function) {
 		return
 	}
 	argConsts := func(fn *ssa.Function, suffix string, idxs ...int) (string, ssa.CallInstruction) {
-		for _, ci := range callsIn(fn) {
-			if strings.HasSuffix(calleeName(ci), suffix) {
+		for _, d := range deepInstrs(fn, 2, func(in ssa.Instruction) bool {
+			ci, ok := in.(ssa.CallInstruction)
+			return ok && strings.HasSuffix(calleeName(ci), suffix)
+		}) {
+			ci := d.In.(ssa.CallInstruction)
+			{
 				var parts []string
 				for _, i := range idxs {
 					a := ci.Common().Args[i]
@@ -390,13 +395,15 @@ func (c *Ctx) checkTunnelConstants(ns *ssa.Function) {
 	// smux version
 	ver := func(fn *ssa.Function) int64 {
 		v := int64(-1)
-		allInstrs(fn, func(in ssa.Instruction) {
-			if st, ok := in.(*ssa.Store); ok {
-				if _, f, okf := fieldOfAddr(st.Addr); okf && f.Name() == "Version" && f.Pkg() != nil && strings.Contains(f.Pkg().Path(), "smux") {
-					v, _ = constInt(st.Val)
+		for _, g := range deepFns(fn, 2) {
+			allInstrs(g, func(in ssa.Instruction) {
+				if st, ok := in.(*ssa.Store); ok {
+					if _, f, okf := fieldOfAddr(st.Addr); okf && f.Name() == "Version" && f.Pkg() != nil && strings.Contains(f.Pkg().Path(), "smux") {
+						v, _ = constInt(st.Val)
+					}
 				}
-			}
-		})
+			})
+		}
 		return v
 	}
 	c.check(ver(ns) == ver(acceptT) && ver(ns) > 0, rule, "smux protocol version equal on both ends", p.Pos(acceptT.Pos()), fmt.Sprint(ver(ns)), fmt.Sprintf("client %d vs server %d", ver(ns), ver(acceptT)))
